@@ -120,6 +120,7 @@ def setup(E):
         ("costs-present", "Event.SPECIATION in costs and Event.DUPLICATION in costs and Event.HORIZONTAL_TRANSFER in costs and Event.FULL_LOSS in costs"),
         ("costs", "is_fin(costs[Event.SPECIATION]) and is_fin(costs[Event.DUPLICATION]) and is_fin(costs[Event.FULL_LOSS]) and costs[Event.SPECIATION] >= 0 and costs[Event.DUPLICATION] >= 0 and costs[Event.HORIZONTAL_TRANSFER] >= 0 and costs[Event.FULL_LOSS] >= 0"),
         ("table-policies", "table.merge_policy == MergePolicy.MIN and table.retention_policy != RetentionPolicy.NONE"),
+        ("table-no-neg-inf", "forall(lambda a, b: cellv(table.g_val, a, b) != -inf, Node, Node)"),
     ]
     GV0, GT0 = "old(table.g_val)", "old(table.g_tags)"
     U, S = "root_node", "root_species"
@@ -147,6 +148,7 @@ def setup(E):
                    or exists(lambda x, y: {NEW_OF('x', 'y')}, Node, Node)), exists(lambda t: {NEWT}, Tag))"""),
             ("bellman/tags-any-single", f"implies(table.retention_policy == RetentionPolicy.ANY, forall(lambda t, t2: implies({NEWT} and {NEWT.replace(', t)', ', t2)')}, t == t2), Tag, Tag))"),
             FRAME_T,
+            ("no-neg-inf", "forall(lambda a, b: cellv(table.g_val, a, b) != -inf, Node, Node)"),
         ]
 
     LS, RS = f"left({S})", f"right({S})"
@@ -298,6 +300,7 @@ def _dup_transfer(E):
                or exists(lambda x, y: {NEW_OF('x', 'y')}, Node, Node)), exists(lambda t: {NEWT}, Tag))"""),
         ("bellman/tags-any-single", f"implies(table.retention_policy == RetentionPolicy.ANY, forall(lambda t, t2: implies({NEWT} and {NEWT_OF('t2')}, t == t2), Tag, Tag))"),
         FRAME_T,
+        ("no-neg-inf", "forall(lambda a, b: cellv(table.g_val, a, b) != -inf, Node, Node)"),
     ]
 
     # ---- cuts
@@ -333,6 +336,10 @@ def _dup_transfer(E):
         end.append(f"assert implies(is_fin({star}._value), exists(lambda x, y: {INTREE('x', 'y')} and {cond('x', 'y')} and {term('x', 'y')} == {star}._value, Node, Node))")
         end.append(f"assert implies(table.retention_policy == RetentionPolicy.ALL, forall(lambda t: implies(t in {star}._infos and {star}._value == {NEWV} and is_fin({NEWV}), {NEWT}), Tag))")
     for (star, e1, e2, cost), (cond, term) in zip(STARS, FAM):
+        # soundness, family by family: a tag of a combined entry that realises the new optimum is an optimal placement of that family
+        end.append(f"""assert forall(lambda t: implies(t in {star}._infos and {star}._value == {NEWV} and is_fin({NEWV}),
+                        {INTREE(WX, WY)} and {cond(WX, WY)} and {term(WX, WY)} == {NEWV} and t == mi({WX}, {WY})), Tag)""")
+    for (star, e1, e2, cost), (cond, term) in zip(STARS, FAM):
         # the ALL-completeness clause, family by family
         end.append(f"""assert implies(table.retention_policy == RetentionPolicy.ALL, forall(lambda x, y: implies({INTREE('x', 'y')} and {cond('x', 'y')}
                         and {term('x', 'y')} == {NEWV} and is_fin({NEWV}), {NEWT_OF('mi(x, y)')}), Node, Node))""")
@@ -347,7 +354,7 @@ def _dup_transfer(E):
         ("costs-present", "Event.SPECIATION in costs and Event.DUPLICATION in costs and Event.HORIZONTAL_TRANSFER in costs and Event.FULL_LOSS in costs"),
         ("costs", "is_fin(costs[Event.SPECIATION]) and is_fin(costs[Event.DUPLICATION]) and is_fin(costs[Event.FULL_LOSS]) and costs[Event.SPECIATION] >= 0 and costs[Event.DUPLICATION] >= 0 and costs[Event.HORIZONTAL_TRANSFER] >= 0 and costs[Event.FULL_LOSS] >= 0"),
         ("table-policies", "table.merge_policy == MergePolicy.MIN and table.retention_policy != RetentionPolicy.NONE"),
-        ("table-nonneg", "forall(lambda a, b: not (cellv(table.g_val, a, b) < 0), Node, Node)"),
+        ("table-no-neg-inf", "forall(lambda a, b: cellv(table.g_val, a, b) != -inf, Node, Node)"),
     ]
     STABLE = ["table.g_val == old(table.g_val) and table.g_tags == old(table.g_tags)",
               "left_node == left(root_node) and right_node == right(root_node)",
@@ -374,3 +381,175 @@ _setup_spe = setup
 def setup(E):  # noqa: F811
     _setup_spe(E)
     _dup_transfer(E)
+
+
+def _table_fill(E):
+    """_compute_thl_table: after the fill, leaf cells hold 0 at the leaf's species and nothing elsewhere, and every internal cell is
+    LOWER-CLOSED: no placement of the two children, priced by the documented event model over the children's cells, is cheaper than
+    the cell.  (This is the half of the Bellman equation that the lower-bound lemma consumes; the other half - the value is attained and
+    the retained placements are exactly the optimal ones - is proved per step and not re-stated for the whole table.)"""
+    add = E.registry.add
+    G = {"inf": E.globals["inf"]}
+    E.declare_class("DictDimension", {}, dataclass=True)
+    add(Contract(f"{DP}:Table.__init__", kind="assumed",
+                 params={"self": "Table", "dimensions": "Any", "merge_policy": "MergePolicy", "retention_policy": "RetentionPolicy"},
+                 ensures=["self.merge_policy == merge_policy and self.retention_policy == retention_policy",
+                          "forall(lambda a, b: cellv(self.g_val, a, b) == inf and forall(lambda t: not cellt(self.g_val, self.g_tags, a, b, t), Tag), Node, Node)"],
+                 modifies=["self.*"], globals=G,
+                 note="a new table has no cell (abstract cell map, see Table.cell2_*): ASSUMED, validated by the bounded Table-proxies stand-in", props=["C16"]))
+    # the recurrence terms as named spec functions (same formulas as the step contracts)
+    GVT = "gv: Map[Tup[Node, Node], Ext], costs: Map[Event, Ext], s: Node, u: Node, x: Node, y: Node"
+    E.spec("spe_placed", "s: Node, x: Node, y: Node", "Bool",
+           "(anc(left(s), x) and anc(right(s), y)) or (anc(right(s), x) and anc(left(s), y))")
+    E.spec("spe_term", GVT, "Ext",
+           "costs[Event.SPECIATION] + place_spe(gv, costs[Event.FULL_LOSS], s, left(u), x) + place_spe(gv, costs[Event.FULL_LOSS], s, right(u), y)")
+    E.spec("dt_placed", "s: Node, x: Node, y: Node", "Bool", """
+           (anc(s, x) and anc(s, y)) or ((not anc(s, x) and not anc(x, s)) and anc(s, y)) or (anc(s, x) and (not anc(s, y) and not anc(y, s)))""")
+    E.spec("dt_term", GVT, "Ext", """
+           (costs[Event.DUPLICATION] + place_dup(gv, costs[Event.FULL_LOSS], s, left(u), x) + place_dup(gv, costs[Event.FULL_LOSS], s, right(u), y))
+           if (anc(s, x) and anc(s, y)) else
+           ((costs[Event.HORIZONTAL_TRANSFER] + cellv(gv, left(u), x) + place_dup(gv, costs[Event.FULL_LOSS], s, right(u), y))
+            if ((not anc(s, x) and not anc(x, s)) and anc(s, y)) else
+            (costs[Event.HORIZONTAL_TRANSFER] + place_dup(gv, costs[Event.FULL_LOSS], s, left(u), x) + cellv(gv, right(u), y)))""")
+    E.spec("lower_closed", "gv: Map[Tup[Node, Node], Ext], costs: Map[Event, Ext], st: Node, u: Node, s: Node", "Bool", """
+           forall(lambda x, y: implies(rootof(x) == st and rootof(y) == st,
+                  implies((not leaf(s)) and spe_placed(s, x, y), not (spe_term(gv, costs, s, u, x, y) < cellv(gv, u, s)))
+                  and implies(dt_placed(s, x, y), not (dt_term(gv, costs, s, u, x, y) < cellv(gv, u, s)))), Node, Node)""")
+    I = "rec_input"
+    WF = [(n, t.replace("{I}", I)) for n, t in E._wf_in]
+    OT, ST = f"{I}.object_tree", f"{I}.species_lca.tree"
+    LEAFCELLS = lambda gv, m: f"forall(lambda s: cellv({gv}, {m}, s) == (0 if s == {I}.leaf_object_species[{m}] else inf), Node)"
+    CLOSED = lambda gv, m: f"forall(lambda s: implies(rootof(s) == {ST}, lower_closed({gv}, {I}.costs, {ST}, {m}, s)), Node)"
+    BASE = [
+        ("policies", "table.merge_policy == MergePolicy.MIN and table.retention_policy == retention_policy"),
+        ("no-neg-inf", "forall(lambda a, b: cellv(table.g_val, a, b) != -inf, Node, Node)"),
+    ]
+    add(Contract(
+        f"{M}:_compute_thl_table", params={"rec_input": "ReconciliationInput", "retention_policy": "RetentionPolicy"}, returns="Table",
+        requires=WF + [("policy", "retention_policy != RetentionPolicy.NONE")],
+        ensures=[
+            ("policies", "result.merge_policy == MergePolicy.MIN and result.retention_policy == retention_policy"),
+            ("leaf-cells", f"forall(lambda m: implies(rootof(m) == {OT} and leaf(m), {LEAFCELLS('result.g_val', 'm')}), Node)"),
+            ("lower-closed", f"forall(lambda m: implies(rootof(m) == {OT} and not leaf(m), {CLOSED('result.g_val', 'm')}), Node)"),
+        ],
+        globals=G, fuel=2,
+        at={"for root_species in rec_input.species_lca.tree.traverse('postorder')": ["g0 = table.g_val"],
+            "if not root_species.is_leaf()": ["gs = table.g_val"],
+            "table[root_node][root_species] = Candidate(0)": ["gl = table.g_val"],
+            "_compute_thl_try_duplication_transfer(": [
+                "assert forall(lambda a, b: implies(a != root_node or b != root_species, cellv(table.g_val, a, b) == cellv(gs, a, b)), Node, Node)",
+                # cuts between the two steps: the speciation step keeps the closedness reached so far and bounds the cell by every speciation placement
+                f"assert forall(lambda s: implies(anc({ST}, s) and post_idx({ST}, s) < j, lower_closed(table.g_val, {I}.costs, {ST}, root_node, s)), Node)",
+                f"""assert implies(not leaf(root_species), forall(lambda x, y: implies(rootof(x) == {ST} and rootof(y) == {ST} and spe_placed(root_species, x, y),
+                        not (spe_term(table.g_val, {I}.costs, root_species, root_node, x, y) < cellv(table.g_val, root_node, root_species))), Node, Node))""",
+                "assert forall(lambda a, b: implies(a != root_node, cellv(table.g_val, a, b) == cellv(g0, a, b)), Node, Node)",
+                "g1 = table.g_val",
+            ]},
+        after={"table[root_node][root_species] = Candidate(0)": [
+            f"""assert forall(lambda m: implies(anc({OT}, m) and post_idx({OT}, m) < k and not leaf(m),
+                    m != root_node and left(m) != root_node and right(m) != root_node), Node)""",
+            "assert forall(lambda a, b: implies(a != root_node, cellv(table.g_val, a, b) == cellv(gl, a, b)), Node, Node)",
+            f"""assert forall(lambda m, s, x, y: implies(anc({OT}, m) and post_idx({OT}, m) < k and not leaf(m),
+                    spe_term(table.g_val, {I}.costs, s, m, x, y) == spe_term(gl, {I}.costs, s, m, x, y)
+                    and dt_term(table.g_val, {I}.costs, s, m, x, y) == dt_term(gl, {I}.costs, s, m, x, y)
+                    and cellv(table.g_val, m, s) == cellv(gl, m, s)), Node, Node, Node, Node)""",
+            f"assert forall(lambda m: implies(anc({OT}, m) and post_idx({OT}, m) < k and not leaf(m), {CLOSED('table.g_val', 'm')}), Node)",
+        ],
+            "for root_species in rec_input.species_lca.tree.traverse('postorder')": [
+            # cuts after the species loop: the node just processed is closed; the nodes processed earlier and their children are other nodes,
+            # so their closedness, stated over cells that did not change, carries over
+            f"assert {CLOSED('table.g_val', 'root_node')}",
+            f"""assert forall(lambda m: implies(anc({OT}, m) and post_idx({OT}, m) < k and not leaf(m),
+                    m != root_node and left(m) != root_node and right(m) != root_node), Node)""",
+            f"""assert forall(lambda m, s, x, y: implies(anc({OT}, m) and post_idx({OT}, m) < k and not leaf(m),
+                    spe_term(table.g_val, {I}.costs, s, m, x, y) == spe_term(g0, {I}.costs, s, m, x, y)
+                    and dt_term(table.g_val, {I}.costs, s, m, x, y) == dt_term(g0, {I}.costs, s, m, x, y)
+                    and cellv(table.g_val, m, s) == cellv(g0, m, s)), Node, Node, Node, Node)""",
+            f"assert forall(lambda m: implies(anc({OT}, m) and post_idx({OT}, m) < k and not leaf(m), {CLOSED('table.g_val', 'm')}), Node)",
+        ],
+            "_compute_thl_try_duplication_transfer(": [
+            # cuts after the second step, in the vocabulary of lower_closed
+            "assert forall(lambda a, b: implies(a != root_node or b != root_species, cellv(table.g_val, a, b) == cellv(g1, a, b)), Node, Node)",
+            "assert not (cellv(g1, root_node, root_species) < cellv(table.g_val, root_node, root_species))",
+            f"""assert implies(not leaf(root_species), forall(lambda x, y: implies(rootof(x) == {ST} and rootof(y) == {ST} and spe_placed(root_species, x, y),
+                    spe_term(table.g_val, {I}.costs, root_species, root_node, x, y) == spe_term(g1, {I}.costs, root_species, root_node, x, y)), Node, Node))""",
+            f"""assert implies(not leaf(root_species), forall(lambda x, y: implies(rootof(x) == {ST} and rootof(y) == {ST} and spe_placed(root_species, x, y),
+                    not (spe_term(table.g_val, {I}.costs, root_species, root_node, x, y) < cellv(table.g_val, root_node, root_species))), Node, Node))""",
+            f"""assert forall(lambda x, y: implies(rootof(x) == {ST} and rootof(y) == {ST} and dt_placed(root_species, x, y),
+                    not (dt_term(table.g_val, {I}.costs, root_species, root_node, x, y) < cellv(table.g_val, root_node, root_species))), Node, Node)""",
+            f"assert lower_closed(table.g_val, {I}.costs, {ST}, root_node, root_species)",
+            f"assert forall(lambda s: implies(anc({ST}, s) and post_idx({ST}, s) < j, lower_closed(table.g_val, {I}.costs, {ST}, root_node, s)), Node)",
+        ]},
+        loops={
+            0: LoopSpec(header="for root_node in rec_input.object_tree.traverse('postorder')", index="k", length="n",
+                        invariants=BASE + [
+                            ("leaf-cells", f"forall(lambda m: implies(anc({OT}, m) and post_idx({OT}, m) < k and leaf(m), {LEAFCELLS('table.g_val', 'm')}), Node)"),
+                            ("lower-closed", f"forall(lambda m: implies(anc({OT}, m) and post_idx({OT}, m) < k and not leaf(m), {CLOSED('table.g_val', 'm')}), Node)"),
+                            ("untouched", f"forall(lambda m, s: implies(anc({OT}, m) and post_idx({OT}, m) >= k, cellv(table.g_val, m, s) == inf), Node, Node)"),
+                        ]),
+            1: LoopSpec(header="for root_species in rec_input.species_lca.tree.traverse('postorder')", index="j", length="nj",
+                        invariants=BASE + [
+                            ("others-unchanged", "forall(lambda a, b: implies(a != root_node, cellv(table.g_val, a, b) == cellv(g0, a, b)), Node, Node)"),
+                            ("closed-so-far", f"forall(lambda s: implies(anc({ST}, s) and post_idx({ST}, s) < j, lower_closed(table.g_val, {I}.costs, {ST}, root_node, s)), Node)"),
+                        ]),
+        },
+        props=["C01"]))
+
+
+_setup_dt = setup
+
+
+def setup(E):  # noqa: F811
+    _setup_dt(E)
+    _table_fill(E)
+
+
+def _lower_bound(E):
+    """L2: a lower-closed table bounds the cost of EVERY reconciliation of a subtree from below (induction over the object tree,
+    one recurrence instance per event kind).  Together with _compute_thl_table this is: no valid reconciliation is cheaper than
+    the table value at its root species."""
+    add = E.registry.add
+    G = {"inf": E.globals["inf"]}
+    add(Contract(
+        "lemma_thl_lower_bound", kind="lemma",
+        params={"gv": "Map[Tup[Node, Node], Ext]", "costs": "Map[Event, Ext]", "st": "Node", "ot": "Node",
+                "rec": "Map[Node, Node]", "lm": "Map[Node, Node]", "u": "Node"},
+        requires=[
+            ("trees", "binary(ot) and rootof(ot) == ot and binary(st) and rootof(st) == st and rootof(u) == ot"),
+            ("costs-present", "Event.SPECIATION in costs and Event.DUPLICATION in costs and Event.HORIZONTAL_TRANSFER in costs and Event.FULL_LOSS in costs"),
+            ("costs", "is_fin(costs[Event.SPECIATION]) and is_fin(costs[Event.DUPLICATION]) and is_fin(costs[Event.FULL_LOSS]) and costs[Event.SPECIATION] >= 0 and costs[Event.DUPLICATION] >= 0 and costs[Event.HORIZONTAL_TRANSFER] >= 0 and costs[Event.FULL_LOSS] >= 0"),
+            ("mapping-total", "forall(lambda m: implies(rootof(m) == ot, (m in rec) and rootof(rec[m]) == st), Node)"),
+            ("leaf-map-total", "forall(lambda m: implies(rootof(m) == ot and leaf(m), (m in lm) and rootof(lm[m]) == st), Node)"),
+            ("leaf-cells", "forall(lambda m: implies(rootof(m) == ot and leaf(m), forall(lambda s: cellv(gv, m, s) == (0 if s == lm[m] else inf), Node)), Node)"),
+            ("lower-closed", "forall(lambda m: implies(rootof(m) == ot and not leaf(m), forall(lambda s: implies(rootof(s) == st, lower_closed(gv, costs, st, m, s)), Node)), Node)"),
+        ],
+        ensures=[("lower-bound", "not (eval_cost(rec, lm, costs, u) < cellv(gv, u, rec[u]))")],
+        body="""
+        if not leaf(u):
+            lemma_thl_lower_bound(gv, costs, st, ot, rec, lm, left(u))
+            lemma_thl_lower_bound(gv, costs, st, ot, rec, lm, right(u))
+            assert lower_closed(gv, costs, st, u, rec[u])
+            if node_event_spec(rec, lm, u) == Event.SPECIATION:
+                assert (not leaf(rec[u])) and spe_placed(rec[u], rec[left(u)], rec[right(u)])
+                assert not (spe_term(gv, costs, rec[u], u, rec[left(u)], rec[right(u)]) < cellv(gv, u, rec[u]))
+                assert not (eval_cost(rec, lm, costs, u) < spe_term(gv, costs, rec[u], u, rec[left(u)], rec[right(u)]))
+            elif node_event_spec(rec, lm, u) == Event.DUPLICATION:
+                assert dt_placed(rec[u], rec[left(u)], rec[right(u)]) and anc(rec[u], rec[left(u)]) and anc(rec[u], rec[right(u)])
+                assert not (dt_term(gv, costs, rec[u], u, rec[left(u)], rec[right(u)]) < cellv(gv, u, rec[u]))
+                assert not (eval_cost(rec, lm, costs, u) < dt_term(gv, costs, rec[u], u, rec[left(u)], rec[right(u)]))
+            elif node_event_spec(rec, lm, u) == Event.HORIZONTAL_TRANSFER:
+                assert dt_placed(rec[u], rec[left(u)], rec[right(u)]) and not (anc(rec[u], rec[left(u)]) and anc(rec[u], rec[right(u)]))
+                assert not (dt_term(gv, costs, rec[u], u, rec[left(u)], rec[right(u)]) < cellv(gv, u, rec[u]))
+                assert not (eval_cost(rec, lm, costs, u) < dt_term(gv, costs, rec[u], u, rec[left(u)], rec[right(u)]))
+        """,
+        globals=G, fuel=3,
+        note="structural induction over the binary object tree (recursive calls on the two children)",
+        props=["C01"]))
+
+
+_setup_tf = setup
+
+
+def setup(E):  # noqa: F811
+    _setup_tf(E)
+    _lower_bound(E)
